@@ -133,6 +133,19 @@ impl Gen {
                 let m = self.fresh("P");
                 names.push(m.clone());
                 items.push(Pat::list(vec![Pat::Var(n), Pat::Var(m)], Pat::Nil));
+            } else if choice == 3 {
+                // deeper destructuring: (A B C), ((A B) C), (A B . C), (A (B C))
+                let m = self.fresh("P");
+                let k = self.fresh("P");
+                names.push(m.clone());
+                names.push(k.clone());
+                let (a, b, c) = (Pat::Var(n), Pat::Var(m), Pat::Var(k));
+                items.push(match self.rng.random_range(0..4) {
+                    0 => Pat::list(vec![a, b, c], Pat::Nil),
+                    1 => Pat::list(vec![Pat::list(vec![a, b], Pat::Nil), c], Pat::Nil),
+                    2 => Pat::list(vec![a, b], c),
+                    _ => Pat::list(vec![a, Pat::list(vec![b, c], Pat::Nil)], Pat::Nil),
+                });
             } else if choice == 2 && self.o.at_patterns {
                 let m = self.fresh("P");
                 let k = self.fresh("P");
